@@ -12,6 +12,9 @@ TablesAgg == {"agg"}
 TablesOT == {"ot", "red"}
 TablesAll == {"agg", "ot", "red"}
 TablesNone == {}
+TablesTop == {"top"}
+MCValsSigned == {-1, 0, 1}
+MCValsNeg == {-1, 0}
 NoAnchor == {}
 AnchorOne == {1}
 ===========================================================================
